@@ -212,6 +212,8 @@ def directed_docs():
         "String DynamicValue without adjustment": ir.PType("X_T", "string", ir.StrEnc("UTF-8", ir.DynLen("LEN", True, None, None))),
         "String DiscreteLookupList": ir.PType("X_T", "string", ir.StrEnc("UTF-8", ir.Lookup((((ir.Comparison("LEN", "3", "<", False),), 8), ((ir.Comparison("LEN", "3", ">="), ir.Comparison("TYPE", "0")), 24))))),
         "Binary DynamicValue@useCalibratedValue=false": ir.PType("X_T", "binary", ir.BinEnc(ir.DynLen("LEN", False, None, None))),
+        "Polynomial with a repeated exponent": ir.PType("X_T", "float", I(8, "unsigned", False, ir.Poly(((2.0, 0), (0.5, 1), (0.25, 1))), ())),
+        "Polynomial with terms in descending order": ir.PType("X_T", "float", I(8, "unsigned", False, ir.Poly(((0.5, 2), (3.0, 1), (2.0, 0))), ())),
         "Binary FixedValue=0": ir.PType("X_T", "binary", ir.BinEnc(0)),
         "Binary FixedValue=1": ir.PType("X_T", "binary", ir.BinEnc(1)),
         "Binary LinearAdjustment slope 1": ir.PType("X_T", "binary", ir.BinEnc(ir.DynLen("LEN", False, 1, 8))),
@@ -246,6 +248,20 @@ def directed_docs():
     nested = ir.Container("Inner", (("p", "Y"),))
     root = ir.Container("CCSDSPacket", base_entries + (("c", "Inner"), ("p", "X")))
     out.append(("ContainerRefEntry", ir.Doc(tuple(ts) + (xt, yt), tuple(ps) + (ir.Param("X", "X_T"), ir.Param("Y", "Y_T")), (root, nested))))
+    # names containing a double quote / other punctuation XTCE permits, referenced as base and as nested container
+    q_nested = ir.Container('CAM_2"_BLOCK', (("p", "Y"),))
+    q_child = ir.Container('CAM_2"_HK', (("c", 'CAM_2"_BLOCK'), ("p", "X")), "CCSDSPacket", (ir.Comparison("PKT_APID", "5"),))
+    q_grand = ir.Container("CAM_(A)+B", (("p", "Y"),), 'CAM_2"_HK', (ir.Comparison("TYPE", "1"),))
+    q_root = ir.Container("CCSDSPacket", base_entries, None, None, True)
+    out.append(("container names with a double quote", ir.Doc(tuple(ts) + (xt, yt), tuple(ps) + (ir.Param("X", "X_T"), ir.Param("Y", "Y_T")),
+                                                               (q_grand, q_child, q_root, q_nested))))
+    # a Condition whose literal a double cannot hold, on a 64-bit parameter
+    big_t = ir.PType("BIG_T", "integer", I(64, "unsigned"))
+    c_hit = ir.Container("Exact", (("p", "Y"),), "CCSDSPacket", ir.BoolExpr(ir.Condition("BIG", "==", right_value="9007199254740993", right_cal=False)))
+    c_near = ir.Container("Near", (("p", "X"),), "CCSDSPacket", ir.BoolExpr(ir.Condition("BIG", "==", right_value="9007199254740992", right_cal=False)))
+    b_root = ir.Container("CCSDSPacket", base_entries + (("p", "BIG"),), None, None, True)
+    out.append(("Condition literal beyond 2**53", ir.Doc(tuple(ts) + (xt, yt, big_t), tuple(ps) + (ir.Param("X", "X_T"), ir.Param("Y", "Y_T"), ir.Param("BIG", "BIG_T")),
+                                                          (b_root, c_hit, c_near))))
     return out
 
 
